@@ -70,6 +70,10 @@ CLAIMED = {
          "Generated https-through-proxy exchanges with marker strings in every secret-bearing place; the proxy's reply varies over status 100..=599, headers, bodies up to endless, and heads cut at every offset / garbage / I/O errors under any segmentation. Checked: only a well-formed CONNECT (right authority, right Proxy-Authorization) is written before a 2xx head has been served, nothing after a refusal, ConnectError status and <= 10 KiB body, TLS ClientHello next, no marker in clear, no proxy credentials inside the tunnel, SNI = origin, and certificate verification against the origin's name (origin vs proxy fixture certificate).",
          "The CONNECT Host field, I/O errors while the refusal body is read and percent-decoding of proxy credentials are not asserted; IPv6-literal origins are exercised up to the proxy's reply only.",
          "DESIGN.md §4 C12"),
+ "C14": ("exhaustive enumeration of the TLS configuration matrix (1920 cells per backend, both tiers) against a truth-table oracle; real handshakes with a rustls server on loopback sockets; harness built once per TLS backend",
+         "Every cell of {8 fixture certificates} x accept_invalid_certs x accept_invalid_hostnames x root added x {direct, CONNECT tunnel, https proxy} x {flags set on session, request, sibling before/after, session afterwards} x {localhost, 127.0.0.1} is executed for native-tls and for rustls; success and failure are both asserted, and a request reaching an unauthenticated peer is a violation.",
+         "The system trust store and revocation are not observable with fixtures; validity is long-expired vs far-future only.",
+         "DESIGN.md §4 C14"),
 }
 hooks_commits = subprocess.run(["git","-C","/repo","log","--format=%h %s"],capture_output=True,text=True).stdout.splitlines()
 hook_commits = [l.split()[0] for l in hooks_commits if l.split(' ',1)[1].startswith('verif-hooks')]
@@ -91,7 +95,7 @@ for i in ids:
 NA_REASON = {}
 m = {
  "version": 1,
- "setup_cmd": "cd /verif/harness && CARGO_NET_OFFLINE=true cargo build --offline",
+ "setup_cmd": "cd /verif/harness && CARGO_NET_OFFLINE=true cargo build --offline && CARGO_NET_OFFLINE=true cargo build --offline --no-default-features --features rustls-backend --target-dir target-rustls",
  "hooks": {
   "guard": "cargo feature verif-hooks",
   "enable": "the harness crate depends on attohttpc = { path = \"/repo\", features = [\"verif-hooks\", ...] }, so every ./check rebuilds /repo's working tree with the hooks on",
